@@ -512,11 +512,19 @@ def standard_check(mod, tier, seed):
         ol = mod.oracle_lines(lines, impl_out)
         idx = [i for i, l in enumerate(ol) if l is not None]
         oo = run_lines(model_exe, [ol[i] for i in idx], shards)
+        unavailable = 0
         for i, o in zip(idx, oo):
+            if o is None or o.startswith(("CRASH", "STACKOVERFLOW")):
+                # the ORACLE (our extracted specification) ran out of memory / stack on this case: that says nothing
+                # about the implementation; the model comparison still covers the case
+                unavailable += 1
+                continue
             why = mod.oracle_verdict(lines[i], impl_out[i], o)
             if why:
                 oracle_bad.append((i, why, o))
-        rep.cov["oracle_evaluations"] = len(idx)
+        rep.cov["oracle_evaluations"] = len(idx) - unavailable
+        if unavailable:
+            rep.cov["oracle_unavailable"] = unavailable
 
     known = getattr(mod, "known", lambda line: None)
     nontriv = set()
